@@ -273,6 +273,19 @@ def measure(s, ix, record, searcher=None):
         for f in mi.field_names:
             if mi.schema[f].scorable:
                 tables["flen"][f] = srch.reader().field_length(f)
+        # a boost multiplies, whatever the query expands to: prefixes of the run's words (some expand to
+        # one term, some to several) with and without a boost
+        from whoosh import query as _q
+        tables["prefix"] = []
+        if "t" in mi.field_names:
+            seen = set()
+            for w in list(s.cfg.vocab)[:4]:
+                for n in (2, len(w) - 1):
+                    p = w[:max(1, n)]
+                    if p in seen:
+                        continue
+                    seen.add(p)
+                    tables["prefix"].append((p, run(_q.Prefix("t", p), limit=None), run(_q.Prefix("t", p, boost=2.5), limit=None)))
         for spec in record["queries"]:
             q = Q.build(spec, mi.schema)
             tables["query"].append(run(q, limit=None))
@@ -323,6 +336,16 @@ def check_layout(s, record, tables, li):
                     continue
             raise Violation("leaf_score_formula", "layout %d: Term(%s,%s) with %s: (uid, observed, documented formula) = %s"
                             % (li, f, t, wspec, bad[:3]), sig="leaf_score:" + wspec[0])
+    # boosts multiply (multi-term queries)
+    if wspec[0] != "bm25f_final":
+        for p, plain, boosted in tables.get("prefix") or []:
+            s.count("prefix_boost_checks")
+            if set(plain) != set(boosted):
+                raise Violation("score_composition", "layout %d: Prefix(t,%r) matches %s, with boost=2.5 %s" % (li, p, sorted(plain), sorted(boosted)), sig="score_composition:prefix_boost:set")
+            bad = [(u, plain[u], boosted[u]) for u in plain if not close(boosted[u], 2.5 * plain[u])]
+            if bad:
+                raise Violation("score_composition", "layout %d: Prefix(t,%r, boost=2.5) with %s: (uid, score without boost, score with boost) = %s - the boost does not multiply"
+                                % (li, p, wspec, bad[:3]), sig="score_composition:prefix_boost")
     # (b) composition
     for qi, spec in enumerate(record["queries"]):
         got = tables["query"][qi]
